@@ -187,6 +187,18 @@ def load_known(pid):
     return [e for e in data.get('findings', []) if e.get('property') == pid]
 
 
+WORKER_MEMORY = 3 * 2 ** 30
+
+
+def _limit_memory():
+    """A case that allocates without bound must end in MemoryError inside its own job, not take the machine (and the
+    other workers) with it: 16 workers x 3 GB stay below the memory of the machine."""
+    import resource
+    soft, hard = resource.getrlimit(resource.RLIMIT_AS)
+    if soft == resource.RLIM_INFINITY or soft > WORKER_MEMORY:
+        resource.setrlimit(resource.RLIMIT_AS, (WORKER_MEMORY, hard))
+
+
 def run_jobs(modname, joblist, seed, job_limit):
     specs = [(modname, label, fn, args, job_limit) for (label, fn, args) in joblist]
     if specs:
@@ -200,8 +212,21 @@ def run_jobs(modname, joblist, seed, job_limit):
         outs = [_run_job(s) for s in order]
     else:
         ctx = multiprocessing.get_context('fork')
-        with ctx.Pool(min(NPROC, len(order))) as pool:
-            outs = list(pool.imap_unordered(_run_job, order, 1))
+        with ctx.Pool(min(NPROC, len(order)), initializer=_limit_memory) as pool:
+            it = pool.imap_unordered(_run_job, order, 1)
+            outs = []
+            for _ in range(len(order)):
+                try:
+                    outs.append(it.next(timeout=job_limit + 120))
+                except multiprocessing.TimeoutError:
+                    # no job finished although every running job is past its own limit: a worker process was
+                    # killed (its job is lost to the pool) or hangs where no signal reaches it
+                    done = set(o[1] for o in outs)
+                    for spec in order:
+                        if spec[1] not in done:
+                            outs.append(('lost', spec[1], 'no result: the worker process died or hung (for example killed for '
+                                                          'running out of memory); the jobs still queued behind it were not run'))
+                    break
     outs.sort(key=lambda o: o[1])
     for status, label, payload in outs:
         if status == 'ok':
